@@ -13,6 +13,7 @@ since the third fix a start of an executing id is refused, in the code, the mode
 every task id and from-node index; nothing is bounded.
 -/
 import Kap.Proofs.C02Bounded
+import Kap.Proofs.C02Opts
 import Kap.Gen.C02Cap
 namespace Kap.Props.C02
 open Kap.C02
@@ -21,7 +22,7 @@ open Kap.C02
 
 /-- A task with `from().measurement('cpu')` and an unfiltered `from()`, one cpu point. -/
 def witness : List Op :=
-  [.start ⟨"t", [("d", "autogen")], [{ name := "cpu" }, {}]⟩, .write "d" "autogen" [⟨1, "cpu", []⟩]]
+  [.start ⟨"t", [("d", "autogen")], [{ name := "cpu" }, {}]⟩, .write "d" "autogen" [⟨1, "cpu", [], {}⟩]]
 
 /-- Counterexample: with the snapshot's `forkPoint` (both lookups unconditionally) the point reaches each sink twice, whereas the
 spec asks for once (replayed on the real code by corpus/C02/double-delivery-exact-and-wildcard-key.ops). -/
@@ -34,8 +35,8 @@ theorem old_forkPoint_delivers_twice :
 /-- Second shape of the same defect: a point without measurement name has exact key = empty-measurement key
 (corpus/C02/double-delivery-empty-measurement-name.ops). -/
 theorem old_forkPoint_delivers_twice_empty_name :
-    (runWith forkPointOld "" [.start ⟨"t", [("d", "r")], [{}]⟩, .write "d" "r" [⟨7, "", []⟩]]).delivered "t" 0 = [7, 7] ∧
-    specDelivered "" "t" 0 [.start ⟨"t", [("d", "r")], [{}]⟩, .write "d" "r" [⟨7, "", []⟩]] = [7] := by
+    (runWith forkPointOld "" [.start ⟨"t", [("d", "r")], [{}]⟩, .write "d" "r" [⟨7, "", [], {}⟩]]).delivered "t" 0 = [7, 7] ∧
+    specDelivered "" "t" 0 [.start ⟨"t", [("d", "r")], [{}]⟩, .write "d" "r" [⟨7, "", [], {}⟩]] = [7] := by
   decide
 
 /-- Second defect of the snapshot (repaired by the second `fix:` commit of findings/C02.txt): when `StartTask` fails AFTER `newFork`
@@ -47,9 +48,9 @@ theorem old_failed_start_leaves_stale_subscription :
     let d : TaskDef := ⟨"u", [("d", "r")], [{}]⟩
     let s := startTaskFailOld (init "") d
     s.tasks "u" = none ∧ (s.forks ("d", "r", "")).map (·.1) = ["u"] ∧
-    ((forkPoint s ⟨1, "d", "r", "m", []⟩).log.map (·.1.task.id)) = ["u"] ∧
+    ((forkPoint s ⟨1, "d", "r", "m", [], {}⟩).log.map (·.1.task.id)) = ["u"] ∧
     -- the repaired code leaves nothing behind
-    (startTaskFail (init "") d).forks ("d", "r", "") = [] ∧ (forkPoint (startTaskFail (init "") d) ⟨1, "d", "r", "m", []⟩).log = [] := by
+    (startTaskFail (init "") d).forks ("d", "r", "") = [] ∧ (forkPoint (startTaskFail (init "") d) ⟨1, "d", "r", "m", [], {}⟩).log = [] := by
   decide
 
 /-- Third defect of the snapshot (repaired by the third `fix:` commit of findings/C02.txt): `StartTask` did not look whether the id is
@@ -60,10 +61,10 @@ corpus/C02/start-of-executing-id.ops). -/
 theorem old_start_of_executing_id_corrupts_routing :
     let a : TaskDef := ⟨"t", [("d", "r")], [{ name := "a" }]⟩
     let b : TaskDef := ⟨"t", [("d", "r")], [{ name := "b" }]⟩
-    let s := writePointsWith forkPoint (startTaskOld (startTaskOld (init "") a) b) "d" "r" [⟨1, "a", []⟩, ⟨2, "b", []⟩]
+    let s := writePointsWith forkPoint (startTaskOld (startTaskOld (init "") a) b) "d" "r" [⟨1, "a", [], {}⟩, ⟨2, "b", [], {}⟩]
     s.delivered "t" 0 = [1, 2] ∧
-    specDelivered "" "t" 0 [.start a, .start b, .write "d" "r" [⟨1, "a", []⟩, ⟨2, "b", []⟩]] = [1] ∧
-    (run "" [.start a, .start b, .write "d" "r" [⟨1, "a", []⟩, ⟨2, "b", []⟩]]).delivered "t" 0 = [1] ∧
+    specDelivered "" "t" 0 [.start a, .start b, .write "d" "r" [⟨1, "a", [], {}⟩, ⟨2, "b", [], {}⟩]] = [1] ∧
+    (run "" [.start a, .start b, .write "d" "r" [⟨1, "a", [], {}⟩, ⟨2, "b", [], {}⟩]]).delivered "t" 0 = [1] ∧
     -- stopping it closes the stale edge #0, not the input edge #1 of the task being stopped
     (s.tasks "t").map (·.eid) = some 1 ∧ (stopTask s "t").closed.map (·.eid) = [0] := by
   decide
@@ -146,7 +147,7 @@ and `t` — whose own pipeline is perfectly healthy — gets 3 = cap+1 of 4 poin
 corpus/C02/failed-start-blocks-ingestion.ops). -/
 theorem old_failed_start_blocks_every_task :
     let ops : List Op := [.start ⟨"t", [("d", "r")], [{}]⟩, .startfail ⟨"u", [("d", "r")], [{}]⟩,
-                          .write "d" "r" [⟨1, "m", []⟩, ⟨2, "m", []⟩, ⟨3, "m", []⟩, ⟨4, "m", []⟩]]
+                          .write "d" "r" [⟨1, "m", [], {}⟩, ⟨2, "m", [], {}⟩, ⟨3, "m", [], {}⟩, ⟨4, "m", [], {}⟩]]
     let b := ops.foldl (stepBWith startTask startTaskFailOld 2) { tm := init "" }
     b.blocked = true ∧ b.tm.delivered "t" 0 = [1, 2, 3] ∧ specDelivered "" "t" 0 ops = [1, 2, 3, 4] ∧
     (runB 2 "" ops).blocked = false ∧ (runB 2 "" ops).tm.delivered "t" 0 = [1, 2, 3, 4] := by
@@ -250,19 +251,78 @@ theorem write_call_splits (drp : String) (pre post : List Op) (db rp : String) (
       cases op <;> simp [writeEvents, ih]
   exact key pre none
 
+/-! ### The from() options: the recorded point is the documented function of the written point -/
+
+/-- **Master theorem, whole points.** For every history — every combination of `groupBy(tags…)`, `groupBy(*)`,
+`groupByMeasurement()`, `truncate(d)`, `round(d)` on every from-node, chained or not, any durations (also ≤ 0) — the sequence of
+POINTS recorded under from-node #`i` of task `t` is the sequence of the qualifying written points (`route_refines_spec`), each
+being the documented point `docRec`: name, database, retention policy (default substituted), tags and fields as written; time
+truncated then rounded by every from() of its chain from the top down; dimensions = those of its own from(). -/
+theorem from_options_exact (drp : String) (ops : List Op) (t : String) (i : Nat) :
+    (run drp ops).deliveredPts t i = specDeliveredPts drp t i ops :=
+  run_deliveredPts_eq_spec drp ops t i
+
+/-- The whole-point view and the id view of a sink are the same recording. -/
+theorem from_options_keep_routing (drp : String) (ops : List Op) (t : String) (i : Nat) :
+    ((run drp ops).deliveredPts t i).map (·.id) = (run drp ops).delivered t i := by
+  rw [deliveredPts_eq_with, deliveredWith_map]
+  rfl
+
+/-- What `docTruncate` MEANS: `r` is the recorded time under `truncate(d)` iff it is the multiple of `d` (counted from Go's zero
+time, year 1) with `r ≤ t < r + d`; for `d ≤ 0` iff it is `t`. -/
+theorem truncate_is_last_multiple (d t r : Int) : IsTruncation d t r ↔ r = docTruncate d t :=
+  ⟨isTruncation_unique, fun h => h ▸ docTruncate_isTruncation d t⟩
+
+/-- What `docRound` MEANS: the multiple of `d` at distance ≤ d/2 from `t`, the upper one when two are. -/
+theorem round_is_nearest_multiple (d t r : Int) : IsRounding d t r ↔ r = docRound d t :=
+  ⟨isRounding_unique, fun h => h ▸ docRound_isRounding d t⟩
+
+/-- What `docTagNames` MEANS: the listed names (all tag keys under `*`) in sorted order — the one sorted permutation. -/
+theorem tagNames_is_sorted_listing (o : FromOpts) (tags : List (String × String)) (r : List String) :
+    IsSortedPermOf (if o.star then tags.map (·.1) else o.dims) r ↔ r = docTagNames o tags :=
+  ⟨fun h => sorted_perm_unique h (mergeSort_isSortedPerm _), fun h => h ▸ mergeSort_isSortedPerm _⟩
+
+/-- **Shallow-copy discipline.** The stream node (and a parent from-node) hands ONE message to all its children, `forkPoint` hands
+it to all subscribed tasks. Whatever the children are and in whatever order they run, each forwards exactly what it would forward
+had it received the original alone, and the shared message is unchanged at the end: no from() — with any options — alters what
+its siblings see. -/
+theorem from_does_not_alter_siblings (children : List From) (p : Point) (m : Msg) :
+    fanOutWith From.point children p m = (children.map (fun f => (f.point p m).1), m) := by
+  have := fanOut_point children p m []
+  simpa [fanOutWith] using this
+
+/-- … and what from-node #`i` forwards is determined by the from-nodes of its own chain: replacing, adding or re-optioning any other
+from-node of the task (`froms'` agrees with `froms` on the chain of #`i`) does not change it. -/
+theorem forwarded_point_depends_on_own_chain_only (froms froms' : List From) (i : Nat) (p : Point)
+    (h : ∀ j, onChain froms (i + 1) i j = true → froms'[j]? = froms[j]?) :
+    chainEmits froms' (i + 1) i p = chainEmits froms (i + 1) i p :=
+  chainEmits_chain_only froms froms' p (i + 1) i h
+
+/-- Why the copy matters (the spec tells the two apart): the same from-node WITHOUT `ShallowCopy` — a sibling `from()` behind a
+`from().truncate(1s)` would record the truncated time, and grouped by host. -/
+theorem in_place_from_would_alter_siblings :
+    let a : From := { opts := { truncate := 1000000000, dims := ["host"] } }
+    let b : From := {}
+    let p : Point := ⟨1, "d", "r", "cpu", [], { time := 1700000000300000000, tags := [("host", "a")] }⟩
+    fanOutWith From.pointInPlace [a, b] p p.msg =
+      ([some ⟨1700000000000000000, false, ["host"]⟩, some ⟨1700000000000000000, false, []⟩], ⟨1700000000000000000, false, []⟩) ∧
+    fanOutWith From.point [a, b] p p.msg =
+      ([some ⟨1700000000000000000, false, ["host"]⟩, some ⟨1700000000300000000, false, []⟩], p.msg) := by
+  decide
+
 /-! ### Non-vacuity: the hypotheses are met by concrete, non-trivial histories -/
 
 /-- two tasks, one with the exact+wildcard subscription, a stop of the other task between two writes, default-rp substitution -/
 def sample : List Op :=
   [.start ⟨"t", [("d", "autogen")], [{ name := "cpu" }, { wh := some 0 }, { name := "mem", parent := some 1 }]⟩,
    .start ⟨"u", [("d", "autogen"), ("e", "r2")], [{ name := "cpu" }]⟩,
-   .write "d" "" [⟨1, "cpu", [0]⟩, ⟨2, "mem", []⟩],
+   .write "d" "" [⟨1, "cpu", [0], {}⟩, ⟨2, "mem", [], {}⟩],
    .stop "u",
-   .write "d" "autogen" [⟨3, "cpu", []⟩, ⟨4, "mem", [0]⟩],
+   .write "d" "autogen" [⟨3, "cpu", [], {}⟩, ⟨4, "mem", [0], {}⟩],
    .startfail ⟨"u", [("d", "autogen")], [{}]⟩,
-   .write "e" "r2" [⟨5, "cpu", [0]⟩],
+   .write "e" "r2" [⟨5, "cpu", [0], {}⟩],
    .delete "t",
-   .write "d" "autogen" [⟨6, "cpu", [0]⟩]]
+   .write "d" "autogen" [⟨6, "cpu", [0], {}⟩]]
 
 example : (writtenIds sample).Nodup ∧
     (run "autogen" sample).delivered "t" 0 = [1, 3] ∧ (run "autogen" sample).delivered "t" 1 = [1, 4] ∧
@@ -277,12 +337,42 @@ receives; the first execution got nothing after the drain. -/
 example :
     let ops : List Op :=
       [.start ⟨"t", [("d", "r")], [{ name := "cpu" }]⟩, .start ⟨"t", [("d", "r")], [{ name := "mem" }]⟩,
-       .write "d" "r" [⟨1, "cpu", []⟩, ⟨2, "mem", []⟩], .drain, .write "d" "r" [⟨3, "cpu", []⟩],
-       .start ⟨"t", [("d", "r")], [{ name := "mem" }]⟩, .write "d" "r" [⟨4, "cpu", []⟩, ⟨5, "mem", []⟩]]
+       .write "d" "r" [⟨1, "cpu", [], {}⟩, ⟨2, "mem", [], {}⟩], .drain, .write "d" "r" [⟨3, "cpu", [], {}⟩],
+       .start ⟨"t", [("d", "r")], [{ name := "mem" }]⟩, .write "d" "r" [⟨4, "cpu", [], {}⟩, ⟨5, "mem", [], {}⟩]]
     (run "" ops).delivered "t" 0 = [1, 5] ∧ specDelivered "" "t" 0 ops = [1, 5] ∧
     ((run "" (ops.take 4)).tasks "t").isSome = true ∧ (run "" (ops.take 4)).isLive "t" = false := by decide
 
 /-- `never_sends_on_closed_edge` is not vacuous: edges do get closed. -/
 example : (run "autogen" sample).closed.length = 3 ∧ (run "autogen" sample).sentOnClosed = false := by decide
+
+/-- `from_options_exact` on a history with every option: chained truncate(7s) (7 s does not divide a day: the year-1 origin shows)
+then round(1s), groupBy('zone','host') listing a tag the point lacks, groupBy(*), groupByMeasurement, a sibling that must see the
+original time, a halfway value rounding up. -/
+def optSample : List Op :=
+  [.start ⟨"t", [("d", "autogen")],
+     [{ name := "cpu", opts := { truncate := 7000000000, dims := ["zone", "host"] } },
+      { opts := { star := true, byName := true, round := 1000000000 } },
+      { parent := some 0, opts := { round := 1000000000, truncate := -5 } }]⟩,
+   .write "d" "" [⟨1, "cpu", [], { time := 1700000000300000000, tags := [("host", "a"), ("dc", "x")], fields := [("v", 4)] }⟩,
+                  ⟨2, "mem", [], { time := 1700000001500000000, tags := [], fields := [("v", 5)] }⟩]]
+
+example :
+    (run "autogen" optSample).deliveredPts "t" 0 =
+      [⟨1, "cpu", "d", "autogen", [("host", "a"), ("dc", "x")], [("v", 4)], 1699999997000000000, false, ["host", "zone"]⟩] ∧
+    (run "autogen" optSample).deliveredPts "t" 1 =
+      [⟨1, "cpu", "d", "autogen", [("host", "a"), ("dc", "x")], [("v", 4)], 1700000000000000000, true, ["dc", "host"]⟩,
+       ⟨2, "mem", "d", "autogen", [], [("v", 5)], 1700000002000000000, true, []⟩] ∧
+    (run "autogen" optSample).deliveredPts "t" 2 =
+      [⟨1, "cpu", "d", "autogen", [("host", "a"), ("dc", "x")], [("v", 4)], 1699999997000000000, false, []⟩] := by decide
+
+example : IsTruncation 7000000000 1700000000300000000 1699999997000000000 ∧ IsRounding 1000000000 1700000001500000000 1700000002000000000 ∧
+    IsSortedPermOf ["zone", "host"] ["host", "zone"] := by
+  refine ⟨by decide, by decide, ?_, ?_⟩
+  · decide
+  · exact List.Perm.swap _ _ _
+
+/-- `forwarded_point_depends_on_own_chain_only` is not vacuous: node #1 is off the chain of #2 (= {2, 0}). -/
+example : onChain [({} : From), {}, { parent := some 0 }] 3 2 1 = false ∧ onChain [({} : From), {}, { parent := some 0 }] 3 2 0 = true := by
+  decide
 
 end Kap.Props.C02
